@@ -91,7 +91,7 @@ def main(tier):
         ev.sample({"part": part, "edge": {"act": k[0], "to_obs": g.obs[k[1]]}}, 3)
     # code -> spec: free-running walks through filtration orders of complexes with up to 14 cells, matrices logged,
     # barcode / truthfulness of the returned value / identities evaluated by TLC (Trace_PersistenceMatrix.tla)
-    unknown += pm_common.trace_part(ev, PROP, "traces_vine_z2", 1, z2bins, 2, True, 16 if tier == "quick" else 120, 36, 14, MATCHERS, fnd)
+    unknown += pm_common.trace_part(ev, PROP, "traces_vine_z2", 1, z2bins, 2, True, 40 if tier == "quick" else 160, 36, 14, MATCHERS, fnd)
     total += ev.parts["traces_vine_z2"]["events_matched"]
     ev.cov["evaluations"] = total
     ev.cov["distinct_nontrivial"] = ev.cov["states"]
